@@ -52,8 +52,14 @@ Judge(op) ==
     \cup
     UNION {
       LET im == op.images[j]  o == im.obs
+          retry == im.torn = "retry"
           clause ==
-             IF ~o.opens THEN "does-not-open"
+             \* the request repeated after the restart: acknowledged -> in effect (the final state of
+             \* the uninterrupted operation); refused -> old or new state
+             IF retry /\ o.opens /\ o.readable /\ o.fsck /\ im.rerr = "" /\ St(o) # St(op.final)
+               THEN "repeated-request-acknowledged-but-not-in-effect"
+             ELSE IF retry /\ o.opens /\ o.readable /\ o.fsck /\ im.rerr = "" THEN "ok"
+             ELSE IF ~o.opens THEN "does-not-open"
              ELSE IF ~o.readable THEN "member-unreadable"
              ELSE IF ~o.fsck THEN "reference-to-missing-object"
              ELSE IF St(o) \notin {St(op.pre), St(op.final)} THEN
@@ -62,7 +68,7 @@ Judge(op) ==
              ELSE "ok"
       IN IF clause = "ok" THEN {}
          ELSE {[id |-> op.id, k |-> im.k, clause |-> clause,
-                dev |-> Dev(op, clause, IF im.torn = "" THEN im.gate ELSE "torn"),
+                dev |-> Dev(op, clause, IF im.torn = "" THEN im.gate ELSE IF retry THEN "retry" ELSE "torn"),
                 torn |-> im.torn, err |-> o.err]}
       : j \in DOMAIN op.images }
 
